@@ -92,6 +92,7 @@ def lean_ty(t) -> str:
 	if k == 'index': return 'Py.Index'
 	if k == 'idx': return 'Py.IdxVal'
 	if k == 'csel': return 'Py.CSel'
+	if k == 'lsel': return 'Py.LSel'
 	if k == 'dtype': return 'Py.DType'
 	if k == 'score': return 'UInt32'
 	if k == 'char': return 'Char'
@@ -122,6 +123,7 @@ def default(t) -> str:
 	if k == 'index': return '(default : Py.Index)'
 	if k == 'idx': return '(default : Py.IdxVal)'
 	if k == 'csel': return '(default : Py.CSel)'
+	if k == 'lsel': return '(default : Py.LSel)'
 	if k == 'dtype': return '(default : Py.DType)'
 	if k == 'score': return '(0 : UInt32)'
 	if k == 'char': return "' '"
@@ -167,6 +169,36 @@ def guard_all(es):
 # env: extra leading parameters of the generated definition (name, Lean type) shared by all calls
 ENV_F = ('F', 'Forest')
 ENV_G = ('G', 'List Nat')        # taxon of reference genome i
+
+# the NumPy / isinstance expressions of AdvancedIndexingMixin.__getitem__, read as a whole: exact text -> (PyRt expression, type, raise conditions)
+GETITEM_OPAQUE = {
+	'isinstance(index, (int, np.integer))': ('(Py.IdxVal.isInt s.index)', BOOL),
+	'isinstance(index, slice)': ('(Py.IdxVal.isSlice s.index)', BOOL),
+	'isinstance(index, np.ndarray)': ('(Py.IdxVal.isNd s.index)', BOOL),
+	'isinstance(index, (str, bytes, Mapping, Set))': ('(Py.IdxVal.isSpecial s.index)', BOOL),
+	'[index.start, index.stop, index.step]': ('(Py.IdxVal.sliceFields s.index)', LIST(OPT(OPT(INT)))),
+	'isinstance(i_1, (int, np.integer))': ('(Py.IdxVal.fieldIsInt s.i_1)', BOOL),
+	'index.step == 0': ('(Py.IdxVal.stepIsZero s.index)', BOOL),
+	'len(index)': ('((((Py.IdxVal.len? s.index).getD 0 : Nat) : Int))', INT, [('(Py.IdxVal.len? s.index).isNone', 'TypeError')]),
+	'np.empty(0, dtype=int)': ('Py.IdxVal.emptyInt', ('idx',)),
+	'np.asarray(index)': ('(Py.IdxVal.asarray s.index)', ('idx',), [('(Py.IdxVal.asarrayFails s.index)', 'ValueError')]),
+	'index.ndim != 1': ('(decide (Py.IdxVal.ndim s.index ≠ 1))', BOOL, [('(!(Py.IdxVal.isNd s.index))', 'AttributeError')]),
+	"index.dtype.kind == 'b'": ("(Py.IdxVal.kind s.index == 'b')", BOOL, [('(!(Py.IdxVal.isNd s.index))', 'AttributeError')]),
+	"index.dtype.kind in 'iu'": ("(Py.IdxVal.kind s.index == 'i' || Py.IdxVal.kind s.index == 'u')", BOOL, [('(!(Py.IdxVal.isNd s.index))', 'AttributeError')]),
+	"index.dtype.kind == 'u'": ("(Py.IdxVal.kind s.index == 'u')", BOOL, [('(!(Py.IdxVal.isNd s.index))', 'AttributeError')]),
+	'index.astype(np.intp)': ('(Py.IdxVal.astypeIntp s.index)', ('idx',)),
+	'index < 0': ('(Py.IdxVal.ltZero s.index)', LIST(BOOL)),
+	'isneg.any()': ('((s.isneg).any id)', BOOL),
+}
+
+
+def getitem_stmt_opaque(length):
+	return {'np.add(index, len(self), out=index, where=isneg)': ('index', f'(Py.IdxVal.addWhere s.index {length} s.isneg)', ('idx',))}
+
+
+SIGLIST_SELF = dict(self_as_vars=['_list'], self_len_expr='(((s.self__list).length : Nat) : Int)', self_exprs={'LEN': '(((s.self__list).length : Nat) : Int)', 'L': 's.self__list'},
+	self_calls={'_check_index': ('check_index', ['LEN']), '_getitem_int': ('siglist_getitem_int', ['L']), '_getitem_int_array': ('siglist_getitem_int_array', ['L']),
+	            '_getitem_slice': ('siglist_getitem_slice', ['L']), '_getitem_bool_array': ('siglist_getitem_bool_array', ['L'])})
 
 FUNCS = [
 	dict(name='matching_taxon', file='classify.py', qual='matching_taxon', module='PyMatching',
@@ -315,31 +347,23 @@ FUNCS = [
 	     params=[('self_values', LIST(INT)), ('self_bounds', LIST(INT)), ('index', LIST(BOOL))], ret=('carr',), self_attrs={'values': ('self_values', LIST(INT)), 'bounds': ('self_bounds', LIST(INT))}, self_len_expr='(((s.self_bounds).length : Int) - 1)', self_exprs={'LEN': '(((s.self_bounds).length : Int) - 1)', 'V': 's.self_values', 'B': 's.self_bounds'}, self_calls={'_check_index': ('check_index', ['LEN']), '_getitem_int': ('concat_getitem_int', ['V', 'B']), 'sizeof': ('concat_sizeof', ['V', 'B']), '_getitem_int_array': ('concat_getitem_int_array', ['V', 'B']), 'super._getitem_slice': ('mixin_getitem_slice', ['V', 'B'])}),
 	dict(name='concat_getitem_slice', file='sigs/base.py', qual='ConcatenatedSignatureArray._getitem_slice', module='PyConcat', env=[],
 	     params=[('self_values', LIST(INT)), ('self_bounds', LIST(INT)), ('s_', TUP(OPT(INT), OPT(INT), OPT(INT)))], ret=('carr',), self_attrs={'values': ('self_values', LIST(INT)), 'bounds': ('self_bounds', LIST(INT))}, self_len_expr='(((s.self_bounds).length : Int) - 1)', self_exprs={'LEN': '(((s.self_bounds).length : Int) - 1)', 'V': 's.self_values', 'B': 's.self_bounds'}, self_calls={'_check_index': ('check_index', ['LEN']), '_getitem_int': ('concat_getitem_int', ['V', 'B']), 'sizeof': ('concat_sizeof', ['V', 'B']), '_getitem_int_array': ('concat_getitem_int_array', ['V', 'B']), 'super._getitem_slice': ('mixin_getitem_slice', ['V', 'B'])}),
+	# --- the same for the list-backed collection: its own _getitem_int_array, the mixin's defaults for slices and masks
+	dict(name='siglist_getitem_int_array', file='sigs/base.py', qual='SignatureList._getitem_int_array', module='PySigListGet', env=[],
+	     params=[('self__list', LIST(LIST(INT))), ('indices', LIST(INT))], ret=LIST(LIST(INT)), comp_types={'ret__': LIST(LIST(INT))},
+	     opaque={'self.kmerspec': ('()', ('obj',)), 'self.dtype': ('()', ('obj',))}, calls={'SignatureList': ('{0}', LIST(LIST(INT)), [])}, self_as_vars=['_list'], self_len_expr='(((s.self__list).length : Nat) : Int)', self_exprs={'LEN': '(((s.self__list).length : Nat) : Int)', 'L': 's.self__list'}, self_calls={'_check_index': ('check_index', ['LEN']), '_getitem_int': ('siglist_getitem_int', ['L']), '_getitem_int_array': ('siglist_getitem_int_array', ['L']), '_getitem_slice': ('siglist_getitem_slice', ['L']), '_getitem_bool_array': ('siglist_getitem_bool_array', ['L'])}),
+	dict(name='siglist_getitem_slice', file='util/indexing.py', qual='AdvancedIndexingMixin._getitem_slice', module='PySigListGet', env=[],
+	     params=[('self__list', LIST(LIST(INT))), ('index', TUP(OPT(INT), OPT(INT), OPT(INT)))], ret=LIST(LIST(INT)), self_as_vars=['_list'], self_len_expr='(((s.self__list).length : Nat) : Int)', self_exprs={'LEN': '(((s.self__list).length : Nat) : Int)', 'L': 's.self__list'}, self_calls={'_check_index': ('check_index', ['LEN']), '_getitem_int': ('siglist_getitem_int', ['L']), '_getitem_int_array': ('siglist_getitem_int_array', ['L']), '_getitem_slice': ('siglist_getitem_slice', ['L']), '_getitem_bool_array': ('siglist_getitem_bool_array', ['L'])}),
+	dict(name='siglist_getitem_bool_array', file='util/indexing.py', qual='AdvancedIndexingMixin._getitem_bool_array', module='PySigListGet', env=[],
+	     params=[('self__list', LIST(LIST(INT))), ('index', LIST(BOOL))], ret=LIST(LIST(INT)), self_as_vars=['_list'], self_len_expr='(((s.self__list).length : Nat) : Int)', self_exprs={'LEN': '(((s.self__list).length : Nat) : Int)', 'L': 's.self__list'}, self_calls={'_check_index': ('check_index', ['LEN']), '_getitem_int': ('siglist_getitem_int', ['L']), '_getitem_int_array': ('siglist_getitem_int_array', ['L']), '_getitem_slice': ('siglist_getitem_slice', ['L']), '_getitem_bool_array': ('siglist_getitem_bool_array', ['L'])}),
 	# --- util/indexing.py: the dispatch itself, as the packed collections inherit it.  `index` is a dynamically typed value (Py.IdxVal: what
 	#     isinstance / len / np.asarray say about the object); the NumPy expressions are read as a whole (exact text -> PyRt function).
 	dict(name='concat_getitem', file='util/indexing.py', qual='AdvancedIndexingMixin.__getitem__', module='PyGetitem', env=[],
 	     params=[('self_values', LIST(INT)), ('self_bounds', LIST(INT)), ('index', ('idx',))], ret=('csel',), split_loop_targets=True,
 	     self_attrs={'values': ('self_values', LIST(INT)), 'bounds': ('self_bounds', LIST(INT))}, self_len_expr='(((s.self_bounds).length : Int) - 1)', self_exprs={'LEN': '(((s.self_bounds).length : Int) - 1)', 'V': 's.self_values', 'B': 's.self_bounds'}, self_calls={'_check_index': ('check_index', ['LEN']), '_getitem_int': ('concat_getitem_int', ['V', 'B']), 'sizeof': ('concat_sizeof', ['V', 'B']), '_getitem_int_array': ('concat_getitem_int_array', ['V', 'B']), 'super._getitem_slice': ('mixin_getitem_slice', ['V', 'B']), '_getitem_slice': ('concat_getitem_slice', ['V', 'B']), '_getitem_bool_array': ('mixin_getitem_bool_array', ['V', 'B'])},
-	     opaque={
-	         'isinstance(index, (int, np.integer))': ('(Py.IdxVal.isInt s.index)', BOOL),
-	         'isinstance(index, slice)': ('(Py.IdxVal.isSlice s.index)', BOOL),
-	         'isinstance(index, np.ndarray)': ('(Py.IdxVal.isNd s.index)', BOOL),
-	         'isinstance(index, (str, bytes, Mapping, Set))': ('(Py.IdxVal.isSpecial s.index)', BOOL),
-	         '[index.start, index.stop, index.step]': ('(Py.IdxVal.sliceFields s.index)', LIST(OPT(OPT(INT)))),
-	         'isinstance(i_1, (int, np.integer))': ('(Py.IdxVal.fieldIsInt s.i_1)', BOOL),
-	         'index.step == 0': ('(Py.IdxVal.stepIsZero s.index)', BOOL),
-	         'len(index)': ('((((Py.IdxVal.len? s.index).getD 0 : Nat) : Int))', INT, [('(Py.IdxVal.len? s.index).isNone', 'TypeError')]),
-	         'np.empty(0, dtype=int)': ('Py.IdxVal.emptyInt', ('idx',)),
-	         'np.asarray(index)': ('(Py.IdxVal.asarray s.index)', ('idx',), [('(Py.IdxVal.asarrayFails s.index)', 'ValueError')]),
-	         'index.ndim != 1': ('(decide (Py.IdxVal.ndim s.index ≠ 1))', BOOL, [('(!(Py.IdxVal.isNd s.index))', 'AttributeError')]),
-	         "index.dtype.kind == 'b'": ("(Py.IdxVal.kind s.index == 'b')", BOOL, [('(!(Py.IdxVal.isNd s.index))', 'AttributeError')]),
-	         "index.dtype.kind in 'iu'": ("(Py.IdxVal.kind s.index == 'i' || Py.IdxVal.kind s.index == 'u')", BOOL, [('(!(Py.IdxVal.isNd s.index))', 'AttributeError')]),
-	         "index.dtype.kind == 'u'": ("(Py.IdxVal.kind s.index == 'u')", BOOL, [('(!(Py.IdxVal.isNd s.index))', 'AttributeError')]),
-	         'index.astype(np.intp)': ('(Py.IdxVal.astypeIntp s.index)', ('idx',)),
-	         'index < 0': ('(Py.IdxVal.ltZero s.index)', LIST(BOOL)),
-	         'isneg.any()': ('((s.isneg).any id)', BOOL),
-	     },
-	     stmt_opaque={'np.add(index, len(self), out=index, where=isneg)': ('index', '(Py.IdxVal.addWhere s.index (((s.self_bounds).length : Int) - 1) s.isneg)', ('idx',))}),
+	     opaque=GETITEM_OPAQUE, stmt_opaque=getitem_stmt_opaque('(((s.self_bounds).length : Int) - 1)')),
+	dict(name='siglist_getitem', file='util/indexing.py', qual='AdvancedIndexingMixin.__getitem__', module='PySigListGetitem', env=[],
+	     params=[('self__list', LIST(LIST(INT))), ('index', ('idx',))], ret=('lsel',), split_loop_targets=True, **SIGLIST_SELF,
+	     opaque=GETITEM_OPAQUE, stmt_opaque=getitem_stmt_opaque('(((s.self__list).length : Nat) : Int)')),
 ]
 
 EXC = {'ValueError', 'TypeError', 'IndexError', 'KeyError', 'AttributeError', 'AssertionError', 'RuntimeError'}
@@ -444,6 +468,10 @@ class Fn:
 			return E(f'(Py.CSel.one {e.lean})', ty, e.raises)
 		if ty == ('csel',) and e.ty == ('carr',):
 			return E(f'(Py.CSel.many {e.lean})', ty, e.raises)
+		if ty == ('lsel',) and e.ty == LIST(INT):
+			return E(f'(Py.LSel.one {e.lean})', ty, e.raises)
+		if ty == ('lsel',) and e.ty == LIST(LIST(INT)):
+			return E(f'(Py.LSel.many {e.lean})', ty, e.raises)
 		if e.ty == NUM and ty == NUMINF:
 			return E(f'(some {e.lean})', ty, e.raises)
 		if e.ty == NUMINF and ty == NUM:      # float('inf') where a distance is expected: outside the model, reported as an exception
@@ -1516,6 +1544,13 @@ class Fn:
 			for x in ast.walk(node):
 				if not hasattr(x, 'lineno'): x.lineno = st.lineno
 			return self.stmt(node, ind)
+		if isinstance(st.value, ast.Call) and st.value.args and isinstance(st.value.args[0], ast.ListComp) and 'ret__' in (self.d.get('comp_types') or {}):
+			if 'ret__' not in self.vars:
+				self.vars['ret__'] = self.d['ret']; self.order.append('ret__')
+			a = ast.copy_location(ast.Assign(targets=[ast.Name(id='ret__', ctx=ast.Store())], value=st.value, lineno=st.lineno), st)
+			r = ast.copy_location(ast.Return(value=ast.Name(id='ret__', ctx=ast.Load())), st)
+			ast.fix_missing_locations(a); ast.fix_missing_locations(r)
+			return self.stmt(a, ind) + self.stmt(r, ind)
 		if isinstance(st.value, ast.ListComp) and self.d['ret'][0] == 'list':
 			if 'ret__' not in self.vars:
 				self.vars['ret__'] = self.d['ret']; self.order.append('ret__')
